@@ -1,0 +1,33 @@
+//go:build verif
+
+package icmp
+
+import (
+	"net/netip"
+
+	"github.com/DataDog/datadog-traceroute/common"
+	"github.com/DataDog/datadog-traceroute/packets"
+)
+
+// VerifDriver wraps the unexported icmpDriver for the verification harness.
+type VerifDriver struct{ d *icmpDriver }
+
+// VerifNewDriver builds the real ICMP driver over the given sink/source.
+func VerifNewDriver(params Params, local netip.Addr, sink packets.Sink, source packets.Source) *VerifDriver {
+	return &VerifDriver{d: newICMPDriver(params, local, sink, source)}
+}
+
+// Driver returns the driver as the engine sees it.
+func (v *VerifDriver) Driver() common.TracerouteDriver { return v.d }
+
+// EchoID returns the echo identifier the driver allocated.
+func (v *VerifDriver) EchoID() uint16 { return v.d.echoID }
+
+// Close closes the driver.
+func (v *VerifDriver) Close() { v.d.Close() }
+
+// VerifSetEchoCounter sets the echo-identifier allocator's counter.
+func VerifSetEchoCounter(x uint32) { curEchoID.Store(x) }
+
+// VerifNextEchoID exposes nextEchoID.
+func VerifNextEchoID() uint16 { return nextEchoID() }
